@@ -136,7 +136,7 @@ fn amount_pairs(t: &dyn QtyOps, ua: usize, ub: usize, cfg: &Cfg, rng: &mut Rng, 
     let mut v: Vec<(AmountT, AmountT)> = vec![];
     let base = base_amounts();
     if let (Some(sa), Some(sb)) = (t.scale(ua), t.scale(ub)) {
-        let ks: Vec<i64> = if cfg.thorough { vec![1, 3, 7, 12, 60, 1000] } else { rotate(&[1i64, 3, 7, 12, 60, 1000], salt, 2) };
+        let ks: Vec<i64> = if cfg.thorough { vec![1, 3, 7, 12, 60, 1000] } else { rotate(&[1i64, 3, 7, 12, 60, 1000], salt, 1) };
         for k in ks {
             let kk = small_int(k);
             // equal by construction (in exact arithmetic): a = k*sb, b = k*sa ; a = k*(sb/sa), b = k ; a = k, b = k*(sa/sb)
@@ -767,6 +767,10 @@ pub fn c16_si(cfg: &Cfg, out: &mut Out) {
 
 /// exact number m*2^p*10^q (as written by TLC) -> amount; exact for the dyadic model amounts
 pub fn amt_from_x(x: &Value) -> Option<AmountT> {
+    // recorded events carry the amount's own exact textual representation
+    if let Some(r) = x["r"].as_str() {
+        return parse_amt(r);
+    }
     if x["k"].as_str()? != "fin" {
         return None;
     }
